@@ -1,9 +1,19 @@
+import SpecKitV.Props.NumpyKernelsGen
 import SpecKitV.Props.AttrsA
 import SpecKitV.Lemmas.Detrend
 import SpecKitV.Props.C01
 import SpecKitV.Lemmas.Delay
 import SpecKitV.Lemmas.DelayEff
 
+#print axioms np_numba_agree_win_only_auto
+#print axioms np_numba_agree_win_only_csd
+#print axioms np_numba_agree_detrend0_auto
+#print axioms np_numba_agree_detrend0_csd
+#print axioms np_numba_agree_poly_auto
+#print axioms np_numba_agree_poly_csd
+#print axioms np_cross_is_X_conjY_win_only
+#print axioms np_cross_is_X_conjY_detrend0
+#print axioms np_cross_is_X_conjY_poly
 #print axioms tf_static_gain
 #print axioms tf_zero_input
 #print axioms tf_is_Y_over_X
